@@ -43,6 +43,9 @@ func loadAll(repo string) (*Program, *Specs, error) {
 }
 
 func hasProp(props []string, p string) bool {
+	if p == "ALL" {
+		return true // regression runs: every unit once, whatever its tags (the verdict of a unit does not depend on the property asked for)
+	}
 	for _, x := range props {
 		if x == p {
 			return true
